@@ -1020,6 +1020,8 @@ func (vc *VC) applyContract(fr *Frame, st *State, con *Contract, fn *ssa.Functio
 				vc.havocLvalue(envPre, st, a)
 			}
 		}
+	}
+	{
 		na := vc.q.Fresh("alloc$call", SInt)
 		vc.q.Assert(Ge(na, st.alloc))
 		st.alloc = na
